@@ -583,6 +583,53 @@ func scheduleUnit(doc string) func(r *engine.Rec) {
 	}
 }
 
+// twoParses: two parses running at the same time (each with its own notation, scanner and parser) must both
+// give the result they give alone, on every schedule up to the bound.
+func twoParses(r *engine.Rec) {
+	docs := [2]string{"[1, \"a\", [true](Set)](List)", "[\n    'x': 2.5\n    'y': nil\n](Catalog)\n"}
+	var want [2]string
+	for i, d := range docs {
+		res := cdcnx.Parse(d)
+		want[i] = dump.Dump(res.Value)
+	}
+	prog := func() ([]rt.ThreadSpec, func(*rt.Exec) []string) {
+		var vals [2]any
+		var outs [2]rt.Outcome
+		mk := func(i int) rt.ThreadSpec {
+			return rt.ThreadSpec{Name: fmt.Sprint("parser", i), Body: func() {
+				outs[i] = rt.Protect(0, func() { vals[i] = cdc.Notation().Make().ParseSource(docs[i]) })
+			}}
+		}
+		return []rt.ThreadSpec{mk(0), mk(1)}, func(ex *rt.Exec) []string {
+			var what []string
+			for i := range docs {
+				if outs[i].Panicked {
+					what = append(what, "a sentence is rejected when another parse runs at the same time\x00"+fmt.Sprintf("%q: %s", docs[i], firstLine(outs[i].Value)))
+				} else if d := dump.Dump(vals[i]); d != want[i] {
+					what = append(what, "the result of ParseSource changes when another parse runs at the same time\x00"+fmt.Sprintf("%q: %s vs %s", docs[i], d, want[i]))
+				}
+			}
+			if len(ex.Stuck) > 0 {
+				what = append(what, "deadlock or leaked goroutine with two parses at the same time\x00"+fmt.Sprint(ex.SortedStuck()))
+			}
+			for _, rc := range ex.Races {
+				what = append(what, common.RaceSig(rc)+"\x00"+rc.String())
+			}
+			for _, p := range ex.Panics {
+				if p.Library {
+					what = append(what, "scanner goroutine panics\x00"+p.Value)
+				}
+			}
+			return what
+		}
+	}
+	o := schedx.Opts{Name: "two-parses", Desc: docs[0] + " || " + docs[1], SigPrefix: "two parses: ", SkipA: true, Bounds: []int{0, 1}, CapB: 60000}
+	if r.Tier == "thorough" {
+		o.Bounds, o.CapB = []int{0, 1, 2}, 1500000
+	}
+	schedx.Explore(r, prog, o)
+}
+
 func init() {
 	engine.Register(&engine.Check{
 		ID:        "C11",
@@ -592,6 +639,7 @@ func init() {
 		Budget:    func(string) time.Duration { return 5 * time.Minute },
 		Units: func(string) []engine.Unit {
 			us := []engine.Unit{{Name: "literals", Run: literalPositions}, {Name: "structure", Run: structure}}
+			us = append(us, engine.Unit{Name: "schedules-two-parses", Run: twoParses})
 			for i, d := range scheduleDocs() {
 				us = append(us, engine.Unit{Name: fmt.Sprintf("schedules-%d", i), Run: scheduleUnit(d)})
 			}
